@@ -52,7 +52,7 @@ def valid_hidden(world):
     # hidden = what the constraints mention (that is how the library defines it)
     mentioned = set()
     for c in world["constraints"]:
-        for l in c["lits"]:
+        for l in (c["lits"][1:2] if c.get("via") == "unknown" else c["lits"]):
             mentioned.add(gkey(l[1]) if l[0] == "not" else gkey(l))
     hid = [gkey(h) for h in world["hidden"] if gkey(h) in mentioned]
     out = []
@@ -60,6 +60,8 @@ def valid_hidden(world):
         val = dict(zip(hid, combo))
         ok = True
         for c in world["constraints"]:
+            if c.get("via") == "unknown":
+                continue  # add_unknown_initial_constraint: both values are possible
             lits = [val[gkey(l[1])] ^ True if l[0] == "not" else val[gkey(l)] for l in c["lits"]]
             n = sum(1 for x in lits if x)
             if c["kind"] == "oneof" and n != 1:
